@@ -1,6 +1,8 @@
 package main
 
 import (
+	"encoding/json"
+	"errors"
 	"fmt"
 	"strconv"
 	"strings"
@@ -77,12 +79,55 @@ func (c Cfg) Key(n uint64) interface{} {
 		return uint(n)
 	case "sk":
 		return SK{strKey(n)}
+	case "skc":
+		return SKC{scramble(strKey(n))}
 	}
 	panic("bad key kind " + c.KK)
 }
 
+// SKC is a struct key for trees configured with a CUSTOM marshaler: its JSON view (field A holds
+// the key's letters reversed) orders and hashes differently from its configured marshaled form
+// "c:<letters>", so a tree that falls back to encoding/json for order or layer is wrong.
+type SKC struct{ A string }
+
+func scramble(s string) string {
+	b := []byte(s)
+	for i, j := 0, len(b)-1; i < j; i, j = i+1, j-1 {
+		b[i], b[j] = b[j], b[i]
+	}
+	return string(b)
+}
+
+// customMarshal / customUnmarshal: the RemoteConfig.Marshal / Unmarshal pair of the skc kind.
+func customMarshal(v interface{}) ([]byte, error) {
+	switch x := v.(type) {
+	case SKC:
+		return []byte(`"c:` + scramble(x.A) + `"`), nil
+	case *SKC:
+		return []byte(`"c:` + scramble(x.A) + `"`), nil
+	}
+	return json.Marshal(v)
+}
+
+func customUnmarshal(b []byte, v interface{}) error {
+	if p, ok := v.(*SKC); ok {
+		var s string
+		if err := json.Unmarshal(b, &s); err != nil {
+			return err
+		}
+		if !strings.HasPrefix(s, "c:") {
+			return errors.New("not a custom-marshaled key")
+		}
+		p.A = scramble(s[2:])
+		return nil
+	}
+	return json.Unmarshal(b, v)
+}
+
 func (c Cfg) KeyNat(k interface{}) uint64 {
 	switch v := k.(type) {
+	case SKC:
+		return c.KeyNat(scramble(v.A))
 	case VK:
 		return uint64(v)
 	case uint64:
@@ -129,6 +174,8 @@ func (c Cfg) KeysLike() interface{} {
 		return uint(0)
 	case "sk":
 		return SK{}
+	case "skc":
+		return SKC{}
 	}
 	panic("bad key kind")
 }
